@@ -24,6 +24,7 @@ func init() {
 				Pairs:       pick(tier, nil, []string{"q1x3", "q2x2", "pre"}),
 				PairsSample: scale(tier, 40, 2000),
 				Random:      scale(tier, 100, 8000),
+				Fuzz:        scale(tier, 80, 20000),
 				Steer:       true,
 				Drops:       true,
 			}, tier)
@@ -55,6 +56,7 @@ func init() {
 				Pairs:       pick(tier, []string{"q2x1", "q2x2"}, []string{"q2x1", "q2x2", "q2x3", "q2mix"}),
 				PairsSample: scale(tier, 60, 3000),
 				Random:      scale(tier, 100, 10000),
+				Fuzz:        scale(tier, 80, 20000),
 				Drops:       true,
 			}, tier)
 		},
@@ -83,6 +85,7 @@ func init() {
 				Pairs:       pick(tier, []string{"q1x3"}, []string{"q1x3", "q2x3", "pre"}),
 				PairsSample: scale(tier, 50, 2500),
 				Random:      scale(tier, 100, 8000),
+				Fuzz:        scale(tier, 80, 20000),
 			}, tier)
 		},
 		Run: runRetryCase("C03", func(a *scen.Analysis) ([]scen.Finding, bool, map[string]int) {
@@ -104,6 +107,7 @@ func init() {
 				Singles:     true,
 				PairsSample: scale(tier, 40, 1500),
 				Random:      scale(tier, 100, 4000),
+				Fuzz:        scale(tier, 80, 20000),
 				RandHist:    scale(tier, 120, 12000),
 				Drops:       true,
 			}, tier)
@@ -129,6 +133,7 @@ func init() {
 				Pairs:       pick(tier, []string{"q2x2"}, []string{"q2x2", "q2x3", "preset"}),
 				PairsSample: scale(tier, 50, 2500),
 				Random:      scale(tier, 100, 8000),
+				Fuzz:        scale(tier, 80, 20000),
 				Drops:       true,
 			}, tier)
 		},
@@ -151,6 +156,7 @@ func init() {
 				Singles:     true,
 				PairsSample: scale(tier, 60, 4000),
 				Random:      scale(tier, 100, 12000),
+				Fuzz:        scale(tier, 80, 20000),
 				Repeat:      scale(tier, 400, 6000),
 			}, tier)
 		},
